@@ -195,6 +195,21 @@ func judgeMapLoop(w *World, fn *ssa.Function, rg *ssa.Range) (int, string) {
 				}
 				callee := x.Call.StaticCallee()
 				if callee != nil && w.IsProduct(pkgOf(callee)) && mayHaveEffects(w, callee, map[*ssa.Function]bool{}) {
+					// a helper whose only effects are map stores under a key it receives as parameter,
+					// called with the iteration key for that parameter, is a per-key store
+					if ks, ok := keyedEffectsOnly(w, callee); ok {
+						all := true
+						for k := range ks {
+							if k >= len(x.Call.Args) || !keyed(x.Call.Args[k]) {
+								all = false
+							}
+						}
+						if all {
+							effects++
+							errOnly = false
+							continue
+						}
+					}
 					effects++
 					problems = append(problems, "call of "+FuncName(callee)+" (has effects) once per element, in iteration order")
 					errOnly = false
@@ -236,6 +251,49 @@ func dependsOn(v, on ssa.Value, depth int) bool {
 		}
 	}
 	return false
+}
+
+// keyedEffectsOnly: every effect of fn is a map store whose key is one of fn's parameters
+// (no other store to memory that outlives the call, no call of a product function with
+// effects).  Returns the indices of the key parameters.
+func keyedEffectsOnly(w *World, fn *ssa.Function) (map[int]bool, bool) {
+	keys := map[int]bool{}
+	for _, b := range fn.Blocks {
+		for _, ins := range b.Instrs {
+			switch x := ins.(type) {
+			case *ssa.MapUpdate:
+				idx := -1
+				for i, p := range fn.Params {
+					if x.Key == ssa.Value(p) {
+						idx = i
+					}
+				}
+				if idx < 0 {
+					return nil, false
+				}
+				keys[idx] = true
+			case *ssa.Store:
+				switch a := x.Addr.(type) {
+				case *ssa.Alloc:
+				case *ssa.IndexAddr:
+					if _, ok := a.X.(*ssa.Alloc); !ok {
+						return nil, false
+					}
+				case *ssa.FieldAddr:
+					if _, ok := a.X.(*ssa.Alloc); !ok {
+						return nil, false
+					}
+				default:
+					return nil, false
+				}
+			case *ssa.Call:
+				if callee := x.Call.StaticCallee(); callee != nil && w.IsProduct(pkgOf(callee)) && mayHaveEffects(w, callee, map[*ssa.Function]bool{}) {
+					return nil, false
+				}
+			}
+		}
+	}
+	return keys, len(keys) > 0
 }
 
 // mayHaveEffects: the function (transitively) stores to non-local memory.
